@@ -772,6 +772,7 @@ PY_ISO = [   # text -> ('date', y, m, d) | ('time', h, mi, s, us, offset | None)
     ("2016-W40-4", ("date", 2016, 10, 6)), ("2016W404", ("date", 2016, 10, 6)), ("2016-W40", ("date", 2016, 10, 3)), ("2016W40", ("date", 2016, 10, 3)),
     ("2020-W53-5", ("date", 2021, 1, 1)), ("2021-W01-1", ("date", 2021, 1, 4)), ("2016-W52-7", ("date", 2017, 1, 1)), ("1999-W52-6", ("date", 2000, 1, 1)),
     ("2015-W01-1", ("date", 2014, 12, 29)), ("2020-W01-1", ("date", 2019, 12, 30)), ("2009-W53-7", ("date", 2010, 1, 3)),
+    ("2004-W53-1", ("date", 2004, 12, 27)), ("2032-W53-7", ("date", 2033, 1, 2)), ("1976-W53-4", ("date", 1976, 12, 30)), ("1998-W53-3", ("date", 1998, 12, 30)), ("2005-W53-1", None), ("2003-W53-1", None), ("2033-W53-1", None),
     ("2020-W01-2", ("date", 2019, 12, 31)), ("2015-W01-3", ("date", 2014, 12, 31)), ("2020W012", ("date", 2019, 12, 31)), ("2020-W01-3", ("date", 2020, 1, 1)), ("2026-W53-5", ("date", 2027, 1, 1)),
     ("20161006T123456.1234567Z", ("dt", 2016, 10, 6, 12, 34, 56, 123456, 0)), ("T102030.123456789", ("time", 10, 20, 30, 123456, None)), ("20161006T123456,987654321+0130", ("dt", 2016, 10, 6, 12, 34, 56, 987654, 5400)),
     ("T10:20:30", ("time", 10, 20, 30, 0, None)), ("T10:20:30.5-03:30", ("time", 10, 20, 30, 500000, -12600)), ("T102030", ("time", 10, 20, 30, 0, None)), ("T1020", ("time", 10, 20, 0, 0, None)), ("T10", ("time", 10, 0, 0, 0, None)),
@@ -796,6 +797,9 @@ PY_ISO = [   # text -> ('date', y, m, d) | ('time', h, mi, s, us, offset | None)
     ("2016-10-06T12", ("dt", 2016, 10, 6, 12, 0, 0, 0, None)), ("2016-W40-4T10:20", ("dt", 2016, 10, 6, 10, 20, 0, 0, None)), ("2016-280T10:20:30", ("dt", 2016, 10, 6, 10, 20, 30, 0, None)),
     ("2016-02-29T00:00:00", ("dt", 2016, 2, 29, 0, 0, 0, 0, None)), ("2016-12-31T23:59:59.999999+00:00", ("dt", 2016, 12, 31, 23, 59, 59, 999999, 0)),
     ("2016-13-01", None), ("2016-02-30", None), ("2015-02-29", None), ("2016-W54", None), ("2016-W40-8", None), ("2016-W40-0", None), ("2016W400", None), ("2016-W00-1", None), ("2016W001", None), ("2016-W00", None), ("2016-W53", None), ("2015-W53", ("date", 2015, 12, 28)), ("2015-W53-7", ("date", 2016, 1, 3)),
+    # 24:00 denotes midnight at the end of the day: refusing it (as both parsers do) or reading it as 00:00 of the next day is right, 00:00 of the same day is not
+    ("2016-10-06T24:00:00", ("either", ("dt", 2016, 10, 7, 0, 0, 0, 0, None))), ("2016-10-06T24:00", ("either", ("dt", 2016, 10, 7, 0, 0, 0, 0, None))),
+    ("20161006T240000", ("either", ("dt", 2016, 10, 7, 0, 0, 0, 0, None))), ("2016-12-31T24:00:00Z", ("either", ("dt", 2017, 1, 1, 0, 0, 0, 0, 0))), ("2016-10-06T24:00:01", None),
     ("2016-000", None), ("2015-366", None), ("2016-367", None), ("2016-10-06T25:00", None), ("2016-10-06T10:61", None), ("10:20:61", None), ("2016-10-0612:34", None),
     ("2016-W404", None), ("2016W40-4", None), ("10:2030", None), ("1020:30", None), ("10:", None), ("", None), ("abc", None), ("2016-10-06T", None),
 ]
@@ -836,6 +840,10 @@ def _iso_table(ctx) -> list:
 def _iso_verdict(text, want, got) -> str:
     """'' when `got` (a standard-library date / time / datetime, or ('raise', name)) is what `text` denotes"""
     import datetime as _dt
+    if want is not None and want[0] == "either":
+        if isinstance(got, tuple) and got[:1] == ("raise",) and got[1] in ("ParserError", "ValueError"):
+            return ""
+        want = want[1]
     if isinstance(got, tuple) and got[:1] == ("raise",):
         if want is not None:
             return f"{text!r} is refused ({got[1]}); it denotes {want}"
@@ -959,49 +967,15 @@ def _py_iso_tabulate(ctx) -> None:
                 "Duration": minieval.ClassStub(_new=lambda *a, **k: minieval.Stub(_duration=True), _isa=lambda v: False), "Timezone": None}
         bad, n = [], 0
         table = _iso_table(ctx)
-        if False:
-            # every day of years of each kind (common / leap, long / short ISO year, century) in the six date forms, alone and with a time
-            for y in (1583, 1999, 2000, 2004, 2015, 2016, 2020, 2021, 2100, 9999):
-                d = _dt.date(y, 1, 1)
-                while d.year == y:
-                    iy, iw, iwd = d.isocalendar()
-                    doy = d.timetuple().tm_yday
-                    forms = [f"{y:04d}-{d.month:02d}-{d.day:02d}", f"{y:04d}{d.month:02d}{d.day:02d}", f"{iy:04d}-W{iw:02d}-{iwd}", f"{iy:04d}W{iw:02d}{iwd}", f"{y:04d}-{doy:03d}", f"{y:04d}{doy:03d}"]
-                    if iy > 9999 or iy < 1:
-                        forms = forms[:2] + forms[4:]
-                    for f_ in forms:
-                        table.append((f_, ("date", d.year, d.month, d.day)))
-                    if d.day in (1, 15):
-                        table.append((forms[0] + "T23:59:59.999999-11:30", ("dt", d.year, d.month, d.day, 23, 59, 59, 999999, -41400)))
-                    if d == _dt.date.max:
-                        break
-                    d += _dt.timedelta(days=1)
-            for h in range(24):
-                for mi in (0, 29, 59):
-                    table.append((f"{h:02d}:{mi:02d}:07.5+{h % 15:02d}{mi:02d}", ("time", h, mi, 7, 500000, (h % 15) * 3600 + mi * 60)))
         for text, want in table:
             n += 1
             try:
                 got = minieval.call(fn, [text], {}, {**funcs, "$globals": glob})
             except minieval.Raised as e:
-                if want is not None:
-                    bad.append(f"{text!r} is refused ({e.exc_name}); it denotes {want}")
-                elif e.exc_name not in ("ParserError", "ValueError"):
-                    bad.append(f"{text!r} raises {e.exc_name} instead of a ValueError (ParserError)")
-                continue
-            if want is None:
-                bad.append(f"{text!r} is accepted as {got!r}; it must be refused")
-                continue
-            if want[0] == "date":
-                ok = type(got) is _dt.date and (got.year, got.month, got.day) == want[1:]
-            elif want[0] == "time":
-                ok = type(got) is _dt.time and (got.hour, got.minute, got.second, got.microsecond) == want[1:5] and \
-                    ((got.utcoffset() is None) if want[5] is None else (got.tzinfo is not None and got.utcoffset() == _dt.timedelta(seconds=want[5])))
-            else:
-                ok = type(got) is _dt.datetime and (got.year, got.month, got.day, got.hour, got.minute, got.second, got.microsecond) == want[1:8] and \
-                    ((got.tzinfo is None) if want[8] is None else (got.tzinfo is not None and got.utcoffset() == _dt.timedelta(seconds=want[8])))
-            if not ok:
-                bad.append(f"{text!r} -> {got!r} (expected {want})")
+                got = ("raise", e.exc_name)
+            v = _iso_verdict(text, want, got)
+            if v:
+                bad.append(v)
     except (core.Unsupported, KeyError, TypeError, AttributeError, IndexError, ValueError, re.error, RecursionError) as e:
         ctx.unverified("PYISO.tabulated", "parse_iso8601", f"outside the checker's interpreter: {type(e).__name__}: {e}", m.loc(fn))
         return
